@@ -8,6 +8,8 @@ Line protocol: see lean/ArvVerif/Driver/C06.lean. Four drivers:
   ks  services/keepstore      prod / prodm                (handleIndex)
 """
 import binascii
+import os
+import subprocess
 
 ID = "C06"
 RULE = ("page: collection tables of 0-200 rows with timestamp ties of every multiplicity (including runs longer "
@@ -17,7 +19,9 @@ RULE = ("page: collection tables of 0-200 rows with timestamp ties of every mult
         "(3-6 rows, page size 1-3, ordered pairs/triples of add/modify/delete in one or two successive gaps); idx/gidx: every cut point of "
         "generated well-formed index responses plus malformed streams (blank lines, CR, bad fields, mtime syntax "
         "and range, 64KiB lines, non-200 status, dropped connections); prod: volume outputs with failures; run: "
-        "Balancer.Run with a failure of each kind at every single request. Non-trivial = page case with >= 2 rows, "
+        "Balancer.Run with a failure of each kind at every single request, and `gate` scenarios: a failing index request "
+        "interleaved at statement granularity (instrumented GetCurrentState) with the collection processor/scanner "
+        "held at sampled positions. Non-trivial = page case with >= 2 rows, "
         "cut/abort case with >= 1 line, run case; distinct = distinct case line")
 ASSUMPTIONS = [
     "the collections list endpoint answers a page request atomically with the first `limit` (or fewer, but at "
@@ -28,6 +32,8 @@ ASSUMPTIONS = [
     "(needed only for acceptance of the complete response, not for rejection of truncated ones)",
 ]
 TRUSTED = [
+    "instrumenter /verif/translator/instrument_c06 (add-only verifC06Point insertion into a copy of the current "
+    "balance.go) and the park-and-release schedule controller of the `run … gate` cases",
     "stub API/keepstore servers inside the Go drivers (independent re-implementation of the collections list "
     "endpoint: generic filter evaluation, ordering, limit, count)",
     "GetCurrentState's goroutine/channel protocol is covered by the fault-injection runs only (model: result is "
@@ -41,6 +47,28 @@ DRIVERS = {
     "kc": {"kind": "gotest", "pkg": "sdk/go/keepclient", "test": "TestVerifC06", "min_chunk": 20},
     "ks": {"kind": "gotest", "pkg": "services/keepstore", "test": "TestVerifC06"},
 }
+
+
+VERIF = os.path.dirname(os.path.dirname(os.path.dirname(os.path.abspath(__file__))))
+
+
+def overlay_generated(repo, workdir):
+    """Add-only instrumented copy of the CURRENT services/keep-balance/balance.go: verifC06Point before
+    every statement of the goroutines GetCurrentState starts (a no-op unless the driver's `gate` runs
+    install a schedule controller)."""
+    out = os.path.join(workdir, "balance.instrumented.go")
+    inst = os.path.join(VERIF, "build", "instrument_c06")
+    src = os.path.join(VERIF, "translator", "instrument_c06", "main.go")
+    try:
+        if not os.path.exists(inst) or os.path.getmtime(inst) < os.path.getmtime(src):
+            env = dict(os.environ, GOFLAGS="-mod=mod", GOPROXY="off", GOSUMDB="off", GOTOOLCHAIN="local")
+            subprocess.check_call(["go", "build", "-o", inst, "./instrument_c06"],
+                                  cwd=os.path.join(VERIF, "translator"), env=env)
+        subprocess.check_call([inst, "-in", os.path.join(repo, "services/keep-balance/balance.go"), "-out", out,
+                               "-func", "GetCurrentState"])
+    except Exception as e:  # the driver build then fails and is reported as a broken correspondence
+        open(out, "w").write("package main\n\nfunc init() { instrumenter failed: %s }\n" % str(e).replace("\n", " "))
+    return {"services/keep-balance/balance.go": out}
 
 
 def channel(case):
@@ -339,6 +367,10 @@ def generate(rng, tier):
         ncoll = rng.choice([0, 1, 2, 3, 5])
         ps = rng.choice([0, 1, 2, 3])
         cases.append(f"run {flags} {nsvc} {ncoll} {ps} {kind}")
+    # interleavings of a failing index request with the collection pipeline of GetCurrentState
+    for _ in range(3 if not big else 16):
+        flags = rng.choice(["01011", "00011", "00010", "00001", "10011"])
+        cases.append(f"run {flags} {rng.randint(1, 4)} {rng.randint(2, 7)} {rng.choice([0, 1, 2, 3])} gate")
     if big:
         for _ in range(60):
             flags, kind = rng.choice(combos)
@@ -497,7 +529,7 @@ def _wf_lines(body):
 def oracle(case, impl):
     f = case.split(" ")
     op = f[0]
-    if impl.startswith(("panic", "CRASH", "timeout")) or "=timeout" in impl:
+    if impl.startswith(("panic", "CRASH", "timeout", "not-instrumented")) or "=timeout" in impl:
         return "driver could not observe the behaviour: " + impl[:200]
     if op == "page":
         if "=" not in impl:
